@@ -107,29 +107,39 @@ Definition benign_delete (c : A -> A -> bool) (l : list A) (v : A) : bool :=
   end.
 
 (* a heap variable of at most one element is ordered whatever happened before *)
-Definition norm (s : state) (t : bool * bool) : bool * bool :=
-  (fst t && (1 <? size (fst s)), snd t && (1 <? size (snd s))).
+Definition taints := (bool * bool * bool)%type.
+Definition tfst (t : taints) : bool := fst (fst t).
 
-Definition taint_raw (s : state) (t : bool * bool) (o : op) : bool * bool :=
-  let (t0, t1) := t in
+Definition norm (s : state) (t : taints) : taints :=
+  let '(h0, h1, h2) := s in
+  let '(t0, t1, t2) := t in
+  (t0 && (1 <? size h0), t1 && (1 <? size h1), t2 && (1 <? size h2)).
+
+(* the taint follows the heap variables around: Merge parks the receiver (with
+   its taint) in the third variable and yields a freshly built, ordered heap *)
+Definition taint_raw (s : state) (t : taints) (o : op) : taints :=
+  let '(h0, h1, h2) := s in
+  let '(t0, t1, t2) := t in
   match o with
-  | ODelete v => (t0 || negb (benign_delete (comp (fst s)) (data (fst s)) v), t1)
-  | OClear | OConvert _ | OFromSlice _ _ | OMerge => (false, t1)
-  | OMeld => (false, false)
-  | OSwap => (t1, t0)
+  | ODelete v => (t0 || negb (benign_delete (comp h0) (data h0) v), t1, t2)
+  | OClear | OConvert _ | OFromSlice _ _ => (false, t1, t2)
+  | OMerge => (false, t1, t0)
+  | OMeld => (false, false, false)
+  | OSwap => (t1, t0, t2)
+  | OSwap2 => (t2, t1, t0)
   | _ => t
   end.
 
-Definition taint_step (s : state) (t : bool * bool) (o : op) : bool * bool :=
+Definition taint_step (s : state) (t : taints) (o : op) : taints :=
   norm (fst (step s o)) (taint_raw s t o).
 
 (* model and spec side by side: every output of the model must be accepted by
    the spec, WITH the order requirement whenever h0 is untainted *)
-Fixpoint hist_ok (s : state) (sp : sstate) (t : bool * bool) (ops : list op) : bool :=
+Fixpoint hist_ok (s : state) (sp : sstate) (t : taints) (ops : list op) : bool :=
   match ops with
   | [] => true
   | o :: ops' =>
-      match spec_step (negb (fst t)) sp o (snd (step s o)) with
+      match spec_step (negb (tfst t)) sp o (snd (step s o)) with
       | Some sp' => hist_ok (fst (step s o)) sp' (taint_step s t o) ops'
       | None => false
       end
@@ -148,8 +158,11 @@ Definition rel1 (h : heap) (sh : sheap) (tainted : bool) : Prop :=
   Permutation (data h) (ms sh) /\ comp h = sc sh /\ SWO (comp h) /\
   (tainted = false -> heap_ok (comp h) (data h)).
 
-Definition rel (s : state) (sp : sstate) (t : bool * bool) : Prop :=
-  rel1 (fst s) (fst sp) (fst t) /\ rel1 (snd s) (snd sp) (snd t).
+Definition rel (s : state) (sp : sstate) (t : taints) : Prop :=
+  let '(h0, h1, h2) := s in
+  let '(a, b, d) := sp in
+  let '(t0, t1, t2) := t in
+  rel1 h0 a t0 /\ rel1 h1 b t1 /\ rel1 h2 d t2.
 
 Lemma rel1_norm h sh t : rel1 h sh t -> rel1 h sh (t && (1 <? size h)).
 Proof.
@@ -189,36 +202,41 @@ Proof.
 Qed.
 
 Lemma rel_norm s sp t : rel s sp t -> rel s sp (norm s t).
-Proof. intros [H0 H1]. split; cbn [norm fst snd]; now apply rel1_norm. Qed.
+Proof.
+  destruct s as [[h0 h1] h2], sp as [[a b] d], t as [[t0 t1] t2].
+  intros (H0 & H1 & H2). unfold rel, norm. split; [|split]; now apply rel1_norm.
+Qed.
 
 Lemma list_cases (l : list A) : l = [] \/ exists x t, l = x :: t.
 Proof. destruct l; eauto. Qed.
 
-Lemma clear_data (h : heap) : data (clear h) = [] /\ comp (clear h) = comp h.
-Proof.
-  unfold clear, size. destruct (data h) eqn:E; cbn; auto.
-Qed.
+Lemma rel1_intro (h : heap) (sh : sheap) (t : bool) :
+  Permutation (data h) (ms sh) -> comp h = sc sh -> SWO (comp h) ->
+  (t = false -> heap_ok (comp h) (data h)) -> rel1 h sh t.
+Proof. intros. repeat split; auto; apply H1. Qed.
 
 Lemma step_refines_raw s sp t o :
   rel s sp t -> op_swo o ->
-  exists sp', spec_step (negb (fst t)) sp o (snd (step s o)) = Some sp' /\
+  exists sp', spec_step (negb (tfst t)) sp o (snd (step s o)) = Some sp' /\
               rel (fst (step s o)) sp' (taint_raw s t o).
 Proof.
-  destruct s as [h0 h1], sp as [a b], t as [t0 t1].
-  intros [(P0 & C0 & W0 & K0) (P1 & C1 & W1 & K1)] Hswo. cbn [fst snd] in *.
-  assert (R1 : rel1 h1 b t1) by (repeat split; auto; apply W1).
+  destruct s as [[h0 h1] h2], sp as [[a b] d], t as [[t0 t1] t2].
+  intros (R0 & R1 & R2) Hswo. unfold tfst. cbn [fst snd].
+  pose proof R0 as (P0 & C0 & W0 & K0).
+  pose proof R1 as (P1 & C1 & W1 & K1).
+  (* closes the goal once the new h0 is related, the other two variables unchanged *)
+  Local Ltac fin R1 R2 :=
+    eexists; split; [reflexivity|]; unfold rel; split; [|split; [exact R1 | exact R2]].
   destruct o; cbn [C03_Model.step taint_raw fst snd].
   - (* Push *)
-    destruct (push_spec zero vs h0 W0) as (l' & E & Hp & Hok). rewrite E. cbn [fst snd].
-    eexists. split; [reflexivity|]. split; cbn [fst snd]; [|exact R1].
-    split; [|split; [|split]]; cbn [data comp ms sc]; auto.
+    destruct (push_spec zero vs h0 W0) as (l' & E & Hp & Hok). rewrite E. cbn [fst snd C03_Model.spec_step].
+    fin R1 R2. apply rel1_intro; cbn [data comp ms sc]; auto.
     rewrite <- Hp. now apply Permutation_app_tail.
   - (* Pop *)
     destruct (list_cases (data h0)) as [El | (x0 & l0 & El)].
     + rewrite (pop_empty zero h0 El). cbn [fst snd C03_Model.spec_step].
       assert (E0 : ms a = []) by (apply Permutation_nil; now rewrite <- El).
-      rewrite E0. cbn [nil_b]. rewrite eqb_refl. eexists. split; [reflexivity|].
-      split; cbn [fst snd]; [|exact R1]. split; [|split; [|split]]; auto.
+      rewrite E0. cbn [nil_b]. rewrite eqb_refl. fin R1 R2. exact R0.
     + destruct (pop_spec zero h0) as (l' & E & Hp & Hok); [congruence|].
       rewrite E. cbn [fst snd C03_Model.spec_step].
       assert (Eg : get (data h0) 0 = x0) by (now rewrite El).
@@ -231,16 +249,13 @@ Proof.
       { destruct t0; [reflexivity|]. cbn [negb orb]. apply extremal_spec. intros y Hy.
         rewrite <- C0, <- Eg. apply (Permutation_in _ (Permutation_sym P0)) in Hy.
         apply (peek_extremal zero); auto. }
-      rewrite Hext. eexists. split; [reflexivity|].
-      split; cbn [fst snd]; [|exact R1]. split; [|split; [|split]]; cbn [data comp ms sc]; auto.
+      rewrite Hext. fin R1 R2. apply rel1_intro; cbn [data comp ms sc]; auto.
       symmetry. apply remove1_perm. now rewrite <- P0, <- Hp.
   - (* Peek *)
     rewrite (peek_eq zero). cbn [fst snd C03_Model.spec_step].
     destruct (list_cases (data h0)) as [El | (x0 & l0 & El)].
     + assert (E0 : ms a = []) by (apply Permutation_nil; now rewrite <- El).
-      rewrite E0, El. cbn [nil_b]. rewrite eqb_refl.
-      eexists. split; [reflexivity|]. split; cbn [fst snd]; [|exact R1].
-      split; [|split; [|split]]; auto.
+      rewrite E0, El. cbn [nil_b]. rewrite eqb_refl. fin R1 R2. exact R0.
     + assert (Eg : get (data h0) 0 = x0) by (now rewrite El).
       assert (Hin0 : In x0 (data h0)) by (rewrite El; now left).
       assert (Hin : In x0 (ms a)) by (now apply (Permutation_in _ P0)).
@@ -251,33 +266,28 @@ Proof.
       { destruct t0; [reflexivity|]. cbn [negb orb]. apply extremal_spec. intros y Hy.
         rewrite <- C0, <- Eg. apply (Permutation_in _ (Permutation_sym P0)) in Hy.
         apply (peek_extremal zero); auto. }
-      rewrite Hext. eexists. split; [reflexivity|].
-      split; cbn [fst snd]; [|exact R1]. split; [|split; [|split]]; auto.
+      rewrite Hext. fin R1 R2. exact R0.
   - (* Clear *)
-    destruct (clear_data h0) as [Ed Ec]. cbn [C03_Model.spec_step].
-    eexists. split; [reflexivity|]. split; cbn [fst snd]; [|exact R1].
-    split; [|split; [|split]]; cbn [ms sc]; rewrite ?Ed, ?Ec; auto.
+    cbn [C03_Model.spec_step]. fin R1 R2. unfold clear.
+    apply rel1_intro; cbn [data comp ms sc]; auto.
     intros _. apply heap_ok_small. cbn. lia.
   - (* Convert *)
     cbn in Hswo. destruct (convert_spec zero h0 c Hswo) as (l' & E & Hp & Hok). rewrite E.
-    cbn [fst snd C03_Model.spec_step]. eexists. split; [reflexivity|].
-    split; cbn [fst snd]; [|exact R1]. split; [|split; [|split]]; cbn [data comp ms sc]; auto.
-    now rewrite <- Hp.
+    cbn [fst snd C03_Model.spec_step]. fin R1 R2.
+    apply rel1_intro; cbn [data comp ms sc]; auto. now rewrite <- Hp.
   - (* Delete *)
     destruct (list_cases (data h0)) as [El | (x0 & l0 & El)].
     + rewrite (delete_empty eqb h0 v El). cbn [fst snd C03_Model.spec_step].
       assert (E0 : ms a = []) by (apply Permutation_nil; now rewrite <- El).
-      rewrite E0. cbn.
-      eexists. split; [reflexivity|]. split; cbn [fst snd]; [|exact R1].
-      split; [|split; [|split]]; auto.
+      rewrite E0. cbn [C03_Model.mem existsb negb andb Z.eqb err_empty].
+      fin R1 R2. apply rel1_intro; auto.
       intros _. apply heap_ok_small. rewrite El. cbn. lia.
     + destruct (mem v (ms a)) eqn:Em.
       * assert (Hin : In v (data h0)).
         { apply mem_In in Em. now apply (Permutation_in _ (Permutation_sym P0)). }
         destruct (delete_present zero eqb eqb_spec h0 v Hin) as (idx & l' & Hidx & E & Hp & Hok).
         rewrite E. cbn [fst snd C03_Model.spec_step]. rewrite Em. cbn [andb Z.eqb].
-        eexists. split; [reflexivity|]. split; cbn [fst snd]; [|exact R1].
-        split; [|split; [|split]]; cbn [data comp ms sc]; auto.
+        fin R1 R2. apply rel1_intro; cbn [data comp ms sc]; auto.
         -- symmetry. apply remove1_perm. now rewrite <- P0, <- Hp.
         -- intros Et. apply orb_false_iff in Et as [Et0 Eb]. apply negb_false_iff in Eb.
            apply Hok; auto. apply benign_spec with (v := v); auto.
@@ -285,50 +295,49 @@ Proof.
       * assert (Hnin : ~ In v (data h0)).
         { intros H. apply (Permutation_in _ P0) in H. apply mem_In in H. congruence. }
         rewrite (delete_absent zero eqb eqb_spec h0 v); auto; [|congruence].
-        cbn [fst snd C03_Model.spec_step]. rewrite Em. cbn.
-        eexists. split; [reflexivity|]. split; cbn [fst snd]; [|exact R1].
-        split; [|split; [|split]]; auto.
+        cbn [fst snd C03_Model.spec_step]. rewrite Em. cbn [negb andb Z.eqb err_notfound].
+        fin R1 R2. apply rel1_intro; auto.
         intros Et. apply orb_false_iff in Et as [Et0 _]. auto.
   - (* Size *)
     cbn [C03_Model.spec_step]. unfold size. rewrite (Permutation_length P0), Nat.eqb_refl.
-    eexists. split; [reflexivity|]. split; cbn [fst snd]; [|exact R1]. repeat split; auto; apply W0.
+    fin R1 R2. exact R0.
   - (* IsEmpty *)
     cbn [C03_Model.spec_step]. unfold is_empty, size.
     replace (length (data h0) =? 0) with (nil_b (ms a)).
     2:{ rewrite <- (nil_b_perm _ _ P0). now destruct (data h0). }
-    rewrite Bool.eqb_reflx.
-    eexists. split; [reflexivity|]. split; cbn [fst snd]; [|exact R1]. repeat split; auto; apply W0.
+    rewrite Bool.eqb_reflx. fin R1 R2. exact R0.
   - (* GetValues *)
     cbn [C03_Model.spec_step]. unfold get_values. rewrite (proj2 (ms_eqb_perm _ _) P0).
-    eexists. split; [reflexivity|]. split; cbn [fst snd]; [|exact R1]. repeat split; auto; apply W0.
+    fin R1 R2. exact R0.
   - (* FromSlice *)
     cbn in Hswo. destruct (from_slice_spec zero l c Hswo) as (l' & E & Hp & Hok). rewrite E.
-    cbn [fst snd C03_Model.spec_step]. eexists. split; [reflexivity|].
-    split; cbn [fst snd]; [|exact R1]. split; [|split; [|split]]; cbn [data comp ms sc]; auto.
-    now symmetry.
-  - (* Merge *)
+    cbn [fst snd C03_Model.spec_step]. fin R1 R2.
+    apply rel1_intro; cbn [data comp ms sc]; auto. now symmetry.
+  - (* Merge: fresh ordered result; argument stays; receiver parked with its taint *)
     destruct (merge_spec zero h0 h1 W0) as (l' & E & Hp & Hok). rewrite E.
     cbn [fst snd C03_Model.spec_step].
     rewrite (proj2 (ms_eqb_perm _ _) P0), (proj2 (ms_eqb_perm _ _) P1). cbn [andb].
-    eexists. split; [reflexivity|]. split; cbn [fst snd]; [|exact R1].
-    split; [|split; [|split]]; cbn [data comp ms sc]; auto.
+    fin R1 R0. apply rel1_intro; cbn [data comp ms sc]; auto.
     rewrite <- Hp. now apply Permutation_app.
   - (* Meld *)
     destruct (meld_spec zero h0 h1 W0) as (l' & E & Hp & Hok). rewrite E.
     cbn [fst snd C03_Model.spec_step data nil_b andb].
-    eexists. split; [reflexivity|]. split; cbn [fst snd].
-    + split; [|split; [|split]]; cbn [data comp ms sc]; auto.
+    eexists. split; [reflexivity|]. unfold rel. split; [|split].
+    + apply rel1_intro; cbn [data comp ms sc]; auto.
       rewrite <- Hp. now apply Permutation_app.
-    + split; [|split; [|split]]; cbn [data comp ms sc]; auto.
+    + apply rel1_intro; cbn [data comp ms sc]; auto.
+      intros _. apply heap_ok_small. cbn. lia.
+    + apply rel1_intro; cbn [data comp ms sc]; auto.
       intros _. apply heap_ok_small. cbn. lia.
   - (* Swap *)
-    cbn [C03_Model.spec_step]. eexists. split; [reflexivity|]. split; cbn [fst snd]; auto.
-    repeat split; auto; apply W0.
+    cbn [C03_Model.spec_step]. eexists. split; [reflexivity|]. unfold rel. auto.
+  - (* Swap2 *)
+    cbn [C03_Model.spec_step]. eexists. split; [reflexivity|]. unfold rel. auto.
 Qed.
 
 Lemma step_refines s sp t o :
   rel s sp t -> op_swo o ->
-  exists sp', spec_step (negb (fst t)) sp o (snd (step s o)) = Some sp' /\
+  exists sp', spec_step (negb (tfst t)) sp o (snd (step s o)) = Some sp' /\
               rel (fst (step s o)) sp' (taint_step s t o).
 Proof.
   intros R Hs. destruct (step_refines_raw s sp t o R Hs) as (sp' & E & R').
@@ -343,12 +352,13 @@ Proof.
   destruct (step_refines s sp t o R Ho) as (sp' & E & R'). rewrite E. now apply IH.
 Qed.
 
-Lemma rel_init c0 c1 :
-  SWO c0 -> SWO c1 ->
-  rel (new_heap c0, new_heap c1) (mkS [] c0, mkS [] c1) (false, false).
-Proof.
-  intros H0 H1. split; cbn; (split; [|split; [|split]]); auto; intros _; apply heap_ok_small; cbn; lia.
-Qed.
+Lemma rel1_new c t : SWO c -> rel1 (new_heap c) (mkS [] c) t.
+Proof. intros H. apply rel1_intro; cbn; auto. intros _. apply heap_ok_small. cbn. lia. Qed.
+
+Lemma rel_init c0 c1 c2 :
+  SWO c0 -> SWO c1 -> SWO c2 ->
+  rel (new_heap c0, new_heap c1, new_heap c2) (mkS [] c0, mkS [] c1, mkS [] c2) (false, false, false).
+Proof. intros H0 H1 H2. unfold rel. split; [|split]; now apply rel1_new. Qed.
 
 
 (* ---------- corollaries in terms of [run] and [accepts] ---------- *)
@@ -365,7 +375,7 @@ Qed.
 Lemma spec_step_weaken ord sp o r sp' :
   spec_step ord sp o r = Some sp' -> spec_step false sp o r = Some sp'.
 Proof.
-  destruct sp as [a b]. destruct o, r; cbn [C03_Model.spec_step]; auto.
+  destruct sp as [[a b] d]. destruct o, r; cbn [C03_Model.spec_step]; auto.
   - destruct (nil_b (ms a)); auto. cbn [negb orb].
     destruct (mem v (ms a)); cbn [andb]; [|discriminate].
     destruct (negb ord || extremal (sc a) v (ms a)); [auto | discriminate].
@@ -387,10 +397,10 @@ Proof.
 Qed.
 
 (* h0 is untainted at every step of the history *)
-Fixpoint untainted (s : state) (t : bool * bool) (ops : list op) : bool :=
+Fixpoint untainted (s : state) (t : taints) (ops : list op) : bool :=
   match ops with
   | [] => true
-  | o :: ops' => negb (fst t) && untainted (fst (step s o)) (taint_step s t o) ops'
+  | o :: ops' => negb (tfst t) && untainted (fst (step s o)) (taint_step s t o) ops'
   end.
 
 Theorem history_order ops : forall s sp t,
@@ -408,18 +418,71 @@ Qed.
 Definition not_delete (o : op) : Prop := match o with ODelete _ => False | _ => True end.
 
 Lemma no_delete_untainted ops : forall s,
-  Forall not_delete ops -> untainted s (false, false) ops = true.
+  Forall not_delete ops -> untainted s (false, false, false) ops = true.
 Proof.
   induction ops as [|o ops IH]; intros s Hf; [reflexivity|].
-  inversion Hf as [|? ? Ho Hf']; subst. cbn [untainted fst negb andb].
-  replace (taint_step s (false, false) o) with (false, false); [now apply IH|].
-  unfold taint_step, norm. destruct o; cbn [taint_raw fst snd andb]; try reflexivity. destruct Ho.
+  inversion Hf as [|? ? Ho Hf']; subst. cbn [untainted tfst fst negb andb].
+  replace (taint_step s (false, false, false) o) with (false, false, false); [now apply IH|].
+  unfold taint_step, norm. destruct s as [[h0 h1] h2].
+  destruct (fst (C03_Model.step zero eqb (h0, h1, h2) o)) as [[k0 k1] k2].
+  destruct o; cbn [taint_raw andb]; try reflexivity. destruct Ho.
+Qed.
+
+(* ---------- histories without an "inner" successful Delete ----------
+   Delete(v) on array l is INNER when it succeeds and its victim (the first
+   occurrence of v, the one getIndex finds) is neither the root nor in the last
+   slot.  Only inner Deletes can trigger defect #20. *)
+Definition inner_delete (l : list A) (v : A) : bool :=
+  match get_index eqb l v with
+  | Some idx => negb (idx =? 0) && negb (idx =? length l - 1)
+  | None => false
+  end.
+
+Definition op_inner (s : state) (o : op) : bool :=
+  match o with
+  | ODelete v => inner_delete (data (fst (fst s))) v
+  | _ => false
+  end.
+
+(* no operation of the history is an inner Delete in the state it is applied to *)
+Fixpoint no_inner_delete (s : state) (ops : list op) : bool :=
+  match ops with
+  | [] => true
+  | o :: ops' => negb (op_inner s o) && no_inner_delete (fst (step s o)) ops'
+  end.
+
+Lemma not_inner_benign c (l : list A) v : inner_delete l v = false -> benign_delete c l v = true.
+Proof.
+  unfold inner_delete, benign_delete. destruct (get_index eqb l v) as [idx|]; [|reflexivity].
+  intros H. apply andb_false_iff in H as [H|H]; apply negb_false_iff in H; rewrite H; cbn.
+  - reflexivity.
+  - now rewrite orb_true_r.
+Qed.
+
+Lemma no_inner_untainted ops : forall s,
+  no_inner_delete s ops = true -> untainted s (false, false, false) ops = true.
+Proof.
+  induction ops as [|o ops IH]; intros s Hn; [reflexivity|].
+  cbn [no_inner_delete] in Hn. apply andb_true_iff in Hn as [Ho Hn]. apply negb_true_iff in Ho.
+  cbn [untainted tfst fst negb andb].
+  replace (taint_step s (false, false, false) o) with (false, false, false); [now apply IH|].
+  unfold taint_step, norm. destruct s as [[h0 h1] h2].
+  destruct (fst (C03_Model.step zero eqb (h0, h1, h2) o)) as [[k0 k1] k2].
+  destruct o; cbn [taint_raw andb]; try reflexivity.
+  cbn [op_inner fst data] in Ho. now rewrite (not_inner_benign (comp h0) _ _ Ho).
+Qed.
+
+Lemma no_delete_no_inner ops : forall s, Forall not_delete ops -> no_inner_delete s ops = true.
+Proof.
+  induction ops as [|o ops IH]; intros s Hf; [reflexivity|].
+  inversion Hf as [|? ? Ho Hf']; subst. cbn [no_inner_delete].
+  rewrite IH by assumption. destruct o; try reflexivity. destruct Ho.
 Qed.
 
 (* no operation of any history panics or runs out of fuel *)
 Lemma spec_step_fail ord sp o r :
   r = RPanic \/ r = ROof -> spec_step ord sp o r = None.
-Proof. destruct sp as [a b]. intros [-> | ->]; destruct o; reflexivity. Qed.
+Proof. destruct sp as [[a b] d]. intros [-> | ->]; destruct o; reflexivity. Qed.
 
 Theorem history_no_failure ops : forall s sp t,
   rel s sp t -> Forall op_swo ops ->
